@@ -422,7 +422,9 @@ func (ee *explainer) explainSeqMappings(mm []mapping) {
 		}
 
 		if rangeLen > 2 {
-			fmt.Fprintf(ee.w, "%s-%s -> %s-%s",
+			// The spaces are needed for glyphs without a name: in "3-5" the
+			// lexer would read "-5" as a negative number.
+			fmt.Fprintf(ee.w, "%s - %s -> %s - %s",
 				ee.names[mm[0].from[0]],
 				ee.names[mm[rangeLen-1].from[0]],
 				ee.names[mm[0].to[0]],
